@@ -48,6 +48,8 @@ type Thread struct {
 	deadline time.Duration
 	lockWait bool
 	lastRun  int
+	opSeq    uint64
+	opCur    uint64
 	prio     int
 
 	Blocks     int // number of times the scheduler found the thread durably blocked in an operation
@@ -133,7 +135,7 @@ type Sim struct {
 
 var cur atomic.Pointer[Sim]
 
-var budgets = []int{1 << 30, 1, 2, 3, 4, 5, 6, 8, 10, 13, 16, 20, 25, 32, 40, 50, 64, 80, 100, 128, 160, 200, 256, 512, 1024, 4096}
+var budgets = []int{1 << 20, 1, 2, 3, 4, 5, 6, 8, 10, 13, 16, 20, 25, 32, 40, 50, 64, 80, 100, 128, 160, 200, 256, 512, 1024, 4096}
 
 var stallDur = []time.Duration{time.Microsecond, 50 * time.Microsecond, time.Millisecond, 7 * time.Millisecond, 60 * time.Millisecond, 900 * time.Millisecond, 11 * time.Second}
 
@@ -198,7 +200,7 @@ func (s *Sim) mix(vals ...uint64) {
 func (s *Sim) drawStrategy() {
 	t := s.tape
 	s.strat = t.ChooseW([]int{4, 2, 3, 3})
-	mb := []int{1 << 30, 1, 2, 4, 8, 20, 60, 200}
+	mb := []int{1 << 20, 1, 2, 4, 8, 20, 60, 200}
 	s.meanBud = mb[t.ChooseW([]int{1, 2, 3, 3, 3, 3, 2, 1})]
 	s.switchNum = []int{0, 1, 2, 4, 8, 12, 16}[t.ChooseW([]int{0, 1, 2, 3, 3, 2, 2})]
 	if s.cfg.NoStall {
@@ -210,7 +212,7 @@ func (s *Sim) drawStrategy() {
 	s.hotSeed = uint32(t.Choose(1 << 16))
 	s.poolReuse = t.Choose(9)
 	if s.strat == 1 { // sticky
-		s.meanBud = 1 << 30
+		s.meanBud = 1 << 20
 		if s.switchNum > 2 {
 			s.switchNum = 2
 		}
@@ -400,7 +402,7 @@ func (s *Sim) drawBudget() int {
 		return 64
 	}
 	i := s.tape.Decide(len(budgets), func(r uint64) int {
-		if s.meanBud >= 1<<30 {
+		if s.meanBud >= 1<<20 {
 			return 0
 		}
 		// geometric-ish around meanBud: pick a table entry near a random target
@@ -527,22 +529,31 @@ func Y(site int32) {
 	s.yield(site)
 }
 
+// Token identifies one blocking operation of one thread.
+type Token struct {
+	th  *Thread
+	seq uint64
+}
+
 // B marks the start of a potentially blocking operation; it is a yield
 // point. The returned token must be passed to U right after the operation.
-func B(site int32) *Thread {
+func B(site int32) Token {
 	s := cur.Load()
 	if s == nil {
-		return nil
+		return Token{}
 	}
 	s.yield(site)
 	th := s.running
 	th.opSite = site
-	return th
+	th.opSeq++
+	th.opCur = th.opSeq
+	return Token{th, th.opSeq}
 }
 
 // U is the post-operation gate: a thread that was found durably blocked by
 // the scheduler parks here until it is scheduled again.
-func U(th *Thread) {
+func U(tk Token) {
+	th := tk.th
 	if th == nil {
 		return
 	}
@@ -550,10 +561,28 @@ func U(th *Thread) {
 	if s.poisoned.Load() {
 		runtime.Goexit()
 	}
+	if th.opCur == tk.seq {
+		th.opCur = 0
+	}
 	if th.desched.Load() {
 		th.desched.Store(false)
 		s.park(th)
 	}
+}
+
+// UP is deferred right after B for operations that can end in a panic while the
+// thread is blocked (a send in a blocking select whose channel gets closed): the
+// panic skips U, so the unwinding thread must pass the gate here before it runs
+// any further hook. It does nothing when U has already run for this operation.
+func UP(tk Token) {
+	th := tk.th
+	if th == nil {
+		return
+	}
+	if th.opCur != tk.seq {
+		return
+	}
+	U(tk)
 }
 
 func tryLock(mu interface{}, write bool) bool {
